@@ -18,7 +18,7 @@ from valida.schema import Schema, write_tree_html
 from valida.datapath import DataPath
 
 META = {
-    "rule": "(a) all prefix-closed path sets of <= n paths over {'a','b',0,'<k&\"'>',MapValue(),ListValue()} x 3 condition "
+    "rule": "(a) all prefix-closed path sets of <= n paths over {'a','b',0,'<k&\"'>',two 40-character keys differing in the middle,MapValue(),ListValue()} x 3 condition "
             "assignments x 4 doc blocks; (b) a 4-rule tree x every and-combination (every order, 1-3 operands of a 13-condition "
             "menu) + or / xor combinations at the root and at an inner node; every case x from_path in {none, every rule path} x "
             "nested in {False, True} x anchor_root in {None, 'root'}; a case is one (schema, from_path); non-trivial = the tree "
@@ -32,13 +32,15 @@ META = {
 L = T.leaf
 P = T.path
 MARK = "<k&\"'>"
-ALPHA = [("prim", "a"), ("prim", "b"), ("prim", 0), ("prim", MARK), gen.BARE[0], gen.BARE[1]]
+LONG1 = "maximum_iterations_for_inner_solver_loop"
+LONG2 = "maximum_iterations_for_outer_solver_loop"      # differs from LONG1 only in the middle
+ALPHA = [("prim", "a"), ("prim", "b"), ("prim", 0), ("prim", MARK), gen.BARE[0], gen.BARE[1], ("prim", LONG1), ("prim", LONG2)]
 
 MENU = [
     L("ValueDataType", "equal_to", dict), L("ValueDataType", "equal_to", list), L("ValueDataType", "equal_to", str),
     L("ValueDataType", "in_", [int, str]), L("Value", "is_instance", dict, list), L("ValueLength", "equal_to", 2),
     L("ValueLength", "in_", [1, 2]), L("ValueLength", "less_than", 3), L("Value", "in_", ["x", "<v&>", 1]),
-    L("Value", "allowed_keys", "a", "b", MARK), L("Value", "required_keys", "a", MARK), L("Value", "keys_is_instance", str),
+    L("Value", "allowed_keys", "a", "b", MARK, LONG1, LONG2), L("Value", "required_keys", "a", MARK, LONG2), L("Value", "keys_is_instance", str),
     L("Value", "required_keys", "b"),
 ]
 DOCS = [
